@@ -778,3 +778,148 @@ Proof.
     + injection H as _ <-. eapply parse_addr_zone_piece; eauto.
     + eapply Hn; eauto.
 Qed.
+
+(* ================================================================ G1 for the printed forms: the joined text
+   "a.b.c.d:port" / "[v6%zone]:port" is not itself accepted by ParseIP *)
+Lemma p4_print4_rest a0 a1 a2 a3 rest :
+  a0 < 256 -> a1 < 256 -> a2 < 256 -> a3 < 256 ->
+  exists k, p4_loop (print4 [a0; a1; a2; a3] ++ rest) true false 0 0 [] = p4_loop rest false false a3 k [a0; a1; a2].
+Proof.
+  intros H0 H1 H2 H3.
+  assert (Eq : print4 [a0; a1; a2; a3] ++ rest =
+               dec_byte a0 ++ c_dot :: dec_byte a1 ++ c_dot :: dec_byte a2 ++ c_dot :: dec_byte a3 ++ rest).
+  { unfold print4. repeat (rewrite <- app_assoc; cbn [app]). reflexivity. }
+  rewrite Eq.
+  destruct (p4_field a0 true false [] (c_dot :: dec_byte a1 ++ c_dot :: dec_byte a2 ++ c_dot :: dec_byte a3 ++ rest) H0) as (k0 & ->).
+  destruct (dec_byte_nonempty a1 (c_dot :: dec_byte a2 ++ c_dot :: dec_byte a3 ++ rest)) as (c1 & r1 & E1).
+  cbn [p4_loop]. change (is_digit c_dot) with false. cbv iota. rewrite N.eqb_refl. rewrite E1. cbn [orb length Nat.eqb app].
+  rewrite <- E1.
+  destruct (p4_field a1 false true [a0] (c_dot :: dec_byte a2 ++ c_dot :: dec_byte a3 ++ rest) H1) as (k1 & ->).
+  destruct (dec_byte_nonempty a2 (c_dot :: dec_byte a3 ++ rest)) as (c2 & r2 & E2).
+  cbn [p4_loop]. change (is_digit c_dot) with false. cbv iota. rewrite N.eqb_refl. rewrite E2. cbn [orb length Nat.eqb app].
+  rewrite <- E2.
+  destruct (p4_field a2 false true [a0; a1] (c_dot :: dec_byte a3 ++ rest) H2) as (k2 & ->).
+  destruct (dec_byte_nonempty a3 rest) as (c3 & r3 & E3).
+  cbn [p4_loop]. change (is_digit c_dot) with false. cbv iota. rewrite N.eqb_refl. rewrite E3. cbn [orb length Nat.eqb app].
+  rewrite <- E3.
+  destruct (p4_field a3 false true [a0; a1; a2] rest H3) as (k3 & ->). now exists k3.
+Qed.
+
+Definition v4c (c : N) : bool := is_digit c || (c =? c_dot).
+
+Lemma print4_v4c a0 a1 a2 a3 : a0 < 256 -> a1 < 256 -> a2 < 256 -> a3 < 256 -> forallb v4c (print4 [a0; a1; a2; a3]) = true.
+Proof.
+  intros H0 H1 H2 H3. unfold print4.
+  assert (D : forall b, b < 256 -> forallb v4c (dec_byte b) = true).
+  { intros b Hb. destruct (dec_chars b Hb) as [Hd _]. eapply forallb_impl; [|exact Hd]. intros x Hx. unfold v4c. now rewrite Hx. }
+  repeat (rewrite forallb_app; cbn [forallb]). rewrite !D by auto. reflexivity.
+Qed.
+
+Lemma v4c_no c s : forallb v4c s = true -> v4c c = false -> has_byte c s = false.
+Proof.
+  intros Hs Hc. rewrite has_byte_existsb. apply Bool.not_true_is_false. intro E.
+  apply existsb_exists in E as (x & Hin & Hx). apply N.eqb_eq in Hx. subst x.
+  rewrite forallb_forall in Hs. rewrite (Hs c Hin) in Hc. discriminate.
+Qed.
+
+Lemma parse_addr_v4_joined a0 a1 a2 a3 port :
+  a0 < 256 -> a1 < 256 -> a2 < 256 -> a3 < 256 ->
+  parse_addr (print4 [a0; a1; a2; a3] ++ c_colon :: port) = None.
+Proof.
+  intros H0 H1 H2 H3. unfold parse_addr.
+  assert (Hfd : first_decisive (print4 [a0; a1; a2; a3] ++ c_colon :: port) = Some c_dot).
+  { unfold print4. rewrite <- app_assoc. cbn [app]. apply first_decisive_app; [|reflexivity].
+    destruct (dec_chars a0 H0) as [Hd _]. eapply forallb_impl; [|exact Hd].
+    intros x Hx. apply hexlow_plainc, digit_hexlow, Hx. }
+  rewrite Hfd, N.eqb_refl. unfold parse4.
+  destruct (p4_print4_rest a0 a1 a2 a3 (c_colon :: port) H0 H1 H2 H3) as (k & ->). reflexivity.
+Qed.
+
+Lemma body_bracket x : parse6_body (c_lbr :: x) = None.
+Proof.
+  unfold parse6_body.
+  assert (Hs : strip_lead (c_lbr :: x) = (c_lbr :: x, None, false)) by (destruct x; reflexivity).
+  rewrite Hs. reflexivity.
+Qed.
+
+Lemma digits_no_pct p : forallb is_digit p = true -> has_byte c_pct p = false.
+Proof.
+  intro H. rewrite has_byte_existsb. apply Bool.not_true_is_false. intro E.
+  apply existsb_exists in E as (x & Hin & Hx). apply N.eqb_eq in Hx. subst x.
+  rewrite forallb_forall in H. specialize (H _ Hin). discriminate.
+Qed.
+
+Lemma parse_addr_v6_joined ip z port : wf_ip ip -> length ip = 16%nat -> forallb is_digit port = true ->
+  match parse_addr (c_lbr :: with_zone (print6 ip) z ++ c_rbr :: c_colon :: port) with
+  | Some (_, []) => False | _ => True end.
+Proof.
+  intros Hwf Hlen Hport. destruct (print6_shape ip Hwf Hlen) as (h & t & Hs & Hp).
+  pose proof (print6_textc ip Hwf) as Ht.
+  assert (Hnp : has_byte c_pct (print6 ip) = false) by (apply (textc_no _ _ Ht); reflexivity).
+  unfold parse_addr, with_zone.
+  assert (Hfd : forall tail, first_decisive (c_lbr :: (print6 ip ++ tail)) = Some c_colon).
+  { intro tail. rewrite Hs. rewrite <- app_assoc. cbn [app].
+    change (c_lbr :: h ++ c_colon :: t ++ tail) with ((c_lbr :: h) ++ c_colon :: t ++ tail).
+    apply first_decisive_app; [|reflexivity]. cbn [forallb]. now rewrite Hp. }
+  destruct z as [|q z].
+  - rewrite (Hfd (c_rbr :: c_colon :: port)). change (c_colon =? c_dot) with false. cbv iota. rewrite N.eqb_refl.
+    unfold parse6.
+    assert (Hn : has_byte c_pct (c_lbr :: print6 ip ++ c_rbr :: c_colon :: port) = false).
+    { rewrite has_byte_cons, has_byte_app, Hnp, !has_byte_cons, (digits_no_pct _ Hport). reflexivity. }
+    rewrite (cut_at_none _ _ Hn). now rewrite body_bracket.
+  - assert (Eq : c_lbr :: (print6 ip ++ c_pct :: q :: z) ++ c_rbr :: c_colon :: port =
+                 c_lbr :: (print6 ip ++ (c_pct :: q :: z ++ c_rbr :: c_colon :: port)))
+      by (rewrite <- app_assoc; reflexivity).
+    rewrite Eq, (Hfd (c_pct :: q :: z ++ c_rbr :: c_colon :: port)).
+    change (c_colon =? c_dot) with false. cbv iota. rewrite N.eqb_refl. unfold parse6.
+    assert (Ec : cut_at c_pct (c_lbr :: (print6 ip ++ (c_pct :: q :: z ++ c_rbr :: c_colon :: port))) =
+                 Some (c_lbr :: print6 ip, q :: z ++ c_rbr :: c_colon :: port)).
+    { apply (cut_at_app c_pct (c_lbr :: print6 ip)). rewrite has_byte_cons, Hnp. reflexivity. }
+    rewrite Ec. now rewrite body_bracket.
+Qed.
+
+(* G1 for the strings the function itself produces *)
+Theorem parse_ip_c_joined a z port :
+  valid_ip a = true -> wf_bytes a = true -> (addr_is_v4 a = true -> z = []) -> port_ok port = true ->
+  parse_ip_c (join_host_port (ip_text ip_str_c a z) port) = None.
+Proof.
+  intros Hv Hw H4 Hport. apply port_ok_spec in Hport as (_ & Hd & _).
+  unfold ip_text, parse_ip_c. destruct (to4 a) as [x|] eqn:E.
+  - assert (z = []) by (apply H4; unfold addr_is_v4; now rewrite E). subst z. unfold with_zone.
+    rewrite (ip_str_c_v4 a x Hv E).
+    destruct (four_bytes x (to4_len4 a x E) (to4_wf a x E Hw)) as (a0 & a1 & a2 & a3 & -> & ? & ? & ? & ?).
+    pose proof (v4c_no c_colon _ (print4_v4c a0 a1 a2 a3 H H0 H1 H2) eq_refl) as Hnc.
+    unfold join_host_port.
+    match goal with |- context [if ?b then _ else _] => assert (Hb : b = false) by exact Hnc; rewrite Hb end.
+    pose proof (parse_addr_v4_joined a0 a1 a2 a3 port H H0 H1 H2) as P.
+    match goal with |- context [parse_addr ?x] => assert (He : parse_addr x = None) by exact P; rewrite He end.
+    reflexivity.
+  - rewrite (ip_str_c_v6 a Hv E). pose proof (valid_not_v4_len16 a Hv E) as L.
+    destruct (print6_shape a Hw L) as (h & t & Hs & Hp).
+    assert (Hc : has_byte c_colon (with_zone (print6 a) z) = true).
+    { assert (Hm : forall (c : N) (hh tt : bytes), has_byte c (hh ++ c :: tt) = true).
+      { intros c hh tt. induction hh as [|y hh IH]; cbn [app]; rewrite has_byte_cons; [now rewrite N.eqb_refl | now rewrite IH, orb_true_r]. }
+      unfold with_zone. destruct z as [|q z].
+      - rewrite Hs. apply Hm.
+      - rewrite has_byte_app. rewrite Hs at 1. now rewrite Hm. }
+    unfold join_host_port.
+    match goal with |- context [if ?b then _ else _] => assert (Hb : b = true) by exact Hc; rewrite Hb end.
+    pose proof (parse_addr_v6_joined a z port Hw L Hd) as P.
+    match goal with |- context [parse_addr ?x] =>
+      assert (He : match parse_addr x with Some (_, []) => False | _ => True end) by exact P;
+      destruct (parse_addr x) as [[? [|? ?]]|]; auto; destruct He end.
+Qed.
+
+(* a permitted canonical literal is returned unchanged — no assumption about Go's net package left *)
+Theorem permitted_literal_unchanged_concrete names re_match pol a z port :
+  valid_ip a = true -> wf_bytes a = true -> (addr_is_v4 a = true -> z = []) -> no_brackets z = true ->
+  port_ok port = true -> blocked pol a = false ->
+  dom_blocked re_match pol (ip_text ip_str_c a z) = false ->
+  let s := join_host_port (ip_text ip_str_c a z) port in
+  fst (parse_or_resolve parse_ip_c (resolve_with names) ip_str_c re_match pol s) = Some s.
+Proof.
+  intros Hv Hw H4 Hz Hp Hb Hd s.
+  exact (permitted_literal_unchanged_local parse_ip_c ip_str_c re_match ip_str_c_no_brackets ip_str_c_norm
+           (resolve_with names) pol a z port (literal_law_concrete names) Hv Hw H4 Hz Hp Hb Hd
+           (parse_ip_c_joined a z port Hv Hw H4 Hp)).
+Qed.
